@@ -81,6 +81,14 @@ def compare_state(c, mv, e_next, rtol, where, e_prev_marg=None):
             w = float(run2[a])
             if not abs(g - w) <= 20 * rtol * abs(w) + 1e-300:
                 return f"{where} running MLE scale^2 block {a}: implementation {g!r} vs model {w!r}", None
+    # bookkeeping carried by the state: time, step counter, number of MLE data
+    t_m, ns_m, nd_m = mv[k + 2 * nb:k + 2 * nb + 3]
+    if abs(float(e_next["t"]) - float(t_m)) > 1e-12 * max(1.0, abs(float(t_m))):
+        return f"{where} state time: implementation {e_next['t']!r} vs model {float(t_m)!r}", None
+    if int(e_next["nsteps"]) != int(ns_m):
+        return f"{where} num_steps: implementation {e_next['nsteps']} vs model {int(ns_m)}", None
+    if e_next["run"] is not None and int(e_next["ndata"]) != int(nd_m):
+        return f"{where} number of calibration data: implementation {e_next['ndata']} vs model {int(nd_m)}", None
     return None, worst
 
 
@@ -96,6 +104,13 @@ def compare_final(c, mv, r, rtol):
             return mism, None
         worst = max(worst, w)
     final = mv[k:k + nb]
+    # the solution's time axis and step counters: grid and 0..N
+    if "t" in r and [float(x) for x in r["t"]] != [float(x) for x in c["grid"]]:
+        return f"solution.t {r['t']} is not the grid {[float(x) for x in c['grid']]}", None
+    if "num_steps" in r:
+        ns = [int(x) for x in (r["num_steps"] if isinstance(r["num_steps"], list) else [r["num_steps"]])]
+        if ns != list(range(T)) and ns != list(range(1, T)) and ns != [T - 1]:
+            return f"solution.num_steps {ns} is not the step count along the grid of {T - 1} steps", None
     osc = r["output_scale"]
     if c["calib"] in ("mle", "mle_nocorr"):
         for row in osc:
